@@ -17,6 +17,7 @@ import (
 	"slices"
 	"sort"
 	"strings"
+	"time"
 
 	"reduction.dev/reduction/dkv/bloom"
 	"reduction.dev/reduction/dkv/kv"
@@ -307,14 +308,14 @@ func (eng) Generate(mode, tier string, r *hx.Rand) []*hx.Case {
 		} else if r.Chance(1, 5) {
 			n = r.Range(40, 70)
 		}
-		cs = append(cs, genTab(r.Fork(), n, true))
+		cs = append(cs, genTab(r.Fork(), n, i < 2*len(forced) || i%3 != 2))
 	}
 	for i := 0; i < nMid; i++ {
 		cs = append(cs, genTab(r.Fork(), r.Range(70, 220), false))
 	}
 	for i := 0; i < nBig; i++ {
-		cs = append(cs, genBig(r.Fork(), 2500+r.Intn(300), false))
-		cs = append(cs, genBig(r.Fork(), 4600+r.Intn(300), true))
+		cs = append(cs, genBig(r.Fork(), 2300+r.Intn(300), false))
+		cs = append(cs, genBig(r.Fork(), 4200+r.Intn(300), true))
 	}
 	for i := 0; i < nWal; i++ {
 		cs = append(cs, genWal(r.Fork(), i%3 != 2))
@@ -340,7 +341,16 @@ func pInt(c *hx.Case, name string) uint64 {
 }
 func pBool(c *hx.Case, name string) bool { b, _ := c.Params[name].(bool); return b }
 
+// hung is set when the real code did not come back on some case: its goroutine is still spinning (possibly
+// allocating), so the remaining cases are not run.
+var hung bool
+
+const caseDeadline = 30 * time.Second
+
 func (e eng) Execute(mode string, c *hx.Case) (*hx.Result, error) {
+	if hung {
+		panic("not run: the implementation did not terminate on an earlier case")
+	}
 	var ops []op
 	for _, raw := range c.Ops {
 		var o op
@@ -350,13 +360,39 @@ func (e eng) Execute(mode string, c *hx.Case) (*hx.Result, error) {
 		ops = append(ops, o)
 	}
 	kind, _ := c.Params["kind"].(string)
-	switch kind {
-	case "tab":
-		return execTab(c, ops)
-	case "wal":
-		return execWal(c, ops)
+	type out struct {
+		res *hx.Result
+		err error
+		pan any
 	}
-	return nil, fmt.Errorf("unknown kind %q", kind)
+	ch := make(chan out, 1)
+	go func() {
+		defer func() {
+			if p := recover(); p != nil {
+				ch <- out{pan: p}
+			}
+		}()
+		switch kind {
+		case "tab":
+			r, err := execTab(c, ops)
+			ch <- out{res: r, err: err}
+		case "wal":
+			r, err := execWal(c, ops)
+			ch <- out{res: r, err: err}
+		default:
+			ch <- out{err: fmt.Errorf("unknown kind %q", kind)}
+		}
+	}()
+	select {
+	case o := <-ch:
+		if o.pan != nil {
+			panic(o.pan) // recorded by hx with the case as replay
+		}
+		return o.res, o.err
+	case <-time.After(caseDeadline):
+		hung = true
+		panic(fmt.Sprintf("the implementation did not terminate within %v on this case (%s)", caseDeadline, kind))
+	}
 }
 
 type getRes struct {
